@@ -69,7 +69,27 @@ package attachment
 //@   requires C10.records: forallkey(k, progress.Record, progress.Record[k] != nil)
 
 // Chunk headers: callers check HasMinHeadLen first (PackageProgress.stageStreamData)
+
+// ---------------------------------------------------------------------------------------------
+// C15 (kernel): what counts as a chunk, and how its header is read. A chunk starts with the marker 30 31 63 64;
+// anything else at the head of the pending bytes is a control frame, whatever bytes it contains further on.
+// Su-biao layout: marker(4) name(50, NUL padded) offset(4) length(4); Hei-biao: marker(4) nameLen(1) name offset(4) length(4).
+// ---------------------------------------------------------------------------------------------
+//@ func (*baseStreamDataHandle).HasStreamData
+//@   ensures C15.marker: result == (len(data) >= 4 && data[0] == 0x30 && data[1] == 0x31 && data[2] == 0x63 && data[3] == 0x64)
+//@ func (*baseStreamDataHandle).HasMinHeadLen
+//@   ensures C15.min: result == (len(data) >= 62)
 //@ func (*baseStreamDataHandle).Parse
 //@   requires C15.min: len(data) >= 62
+//@   ensures C15.lens: headLen == 62 && bodyLen == int(be32(data, 58))
+//@   ensures C15.fields: s.FrameSign == be32(data, 0) && s.DataOffset == be32(data, 54) && s.DataLen == be32(data, 58)
+//@   ensures C15.data: ptr(s.Data) == ptr(data) + 62 && len(s.Data) == len(data) - 62
+//@ func (*baseStreamDataHandle).GetDataOffsetAndLen
+//@   ensures C15.get: offset == int(s.DataOffset) && dataLen == int(s.DataLen)
+//@ func (*heiBiaoStreamDataHandle).HasMinHeadLen
+//@   ensures C15.min: result == (len(data) >= 5 && len(data) >= 13 + int(data[4]))
 //@ func (*heiBiaoStreamDataHandle).Parse
 //@   requires C15.min: len(data) >= 5 && len(data) >= 13 + int(data[4])
+//@   ensures C15.lens: headLen == 13 + int(data[4]) && bodyLen == int(be32(data, 9 + int(data[4])))
+//@   ensures C15.fields: h.FileNameLen == data[4] && h.DataOffset == be32(data, 5 + int(data[4])) && h.DataLen == be32(data, 9 + int(data[4]))
+// (h.Data starts 4 bytes early, at the length field; nothing reads it - the body is taken from the pending bytes by headLen/bodyLen)
